@@ -285,10 +285,12 @@ def judge_pair(A, c1, c2, x1, x2):
         if I.sum() != J.sum() or not I.any() or not numpy.isfinite(AIJ).all() or not numpy.linalg.cond(AIJ) < WELL:
             return None  # solution not unique / not well determined
         inv = numpy.linalg.norm(numpy.linalg.inv(AIJ), 2)
-        t1 = max(c1['atol'], c1['rtol'] * _colnorm((b - A @ x01)[I]))
-        t2 = max(c2['atol'], c2['rtol'] * _colnorm((b - A @ x02)[I]))
+        # each answer is determined up to its tolerance; "machine precision" (atol=rtol=0) is the 1e-7*scale that judge() enforces
+        scale = float((abs(A) @ (abs(x1) + abs(x2) + abs(x01) + abs(x02))).max(initial=0.) + abs(b).max(initial=0.))
+        t1 = max(c1['atol'], c1['rtol'] * _colnorm((b - A @ x01)[I])) or 1e-7 * scale
+        t2 = max(c2['atol'], c2['rtol'] * _colnorm((b - A @ x02)[I])) or 1e-7 * scale
         ncol = 1 if x1.ndim == 1 else x1.shape[1]
-        if d <= (t1 + t2) * inv * (1 + 1e-6) * numpy.sqrt(ncol) + 1e-8 * mag * (1 + inv):
+        if d <= (t1 + t2) * inv * (1 + 1e-6) * numpy.sqrt(ncol) + 1e-9 * mag:
             return None
     return 'lin:depends-on-lhs0', 'answers for lhs0={} and lhs0={} differ by {:.3e}: {} vs {}'.format(c1['lhs0'], c2['lhs0'], d, x1.tolist(), x2.tolist())
 
